@@ -1169,6 +1169,18 @@ func doCall(ctx context.Context, c *api.Client, rec *CallRecord) {
 			params.Dur.SetTo(time.Duration(1+r.intn(100000)) * time.Second)
 		}
 		if r.coin() {
+			params.Lvl.SetTo(int8(r.intn(256) - 128))
+		}
+		if r.coin() {
+			params.XCnt.SetTo(int16(r.intn(65536) - 32768))
+		}
+		if r.coin() {
+			params.U8.SetTo(uint8(r.intn(256)))
+		}
+		if r.coin() {
+			params.U16s = []uint16{uint16(r.intn(65536)), 0, 65535}
+		}
+		if r.coin() {
 			// any finite number: the text form must carry every digit
 			params.Big.SetTo([]float64{0.1 + 0.2, 1e-11, 123456789.12345679, -1.7976931348623157e308, 5e-324, float64(r.intn(1<<30)) / 3}[r.intn(6)])
 		}
